@@ -462,7 +462,11 @@ class Engine:
             # as `<module>::<impl at ...>::<fn>::promoted[k]` at the definition
             tail = "::".join(s.split("::")[-2:])
             head = s.split("::")[0]
-            cands = [c for name, c in self.consts.items() if name.endswith("::" + tail) and name.startswith(head)]
+            cands = [c for name, c in self.consts.items() if name.endswith("::" + tail) and (name.startswith(head) or head.startswith("<"))]
+        if not cands and re.match(r"^(?:\w+::)+[A-Z][A-Z0-9_]*$", s):
+            # an associated constant: `module::Type::NAME` at the use site, `module::<impl at ..>::NAME` at the definition
+            last, head = s.split("::")[-1], s.split("::")[0]
+            cands = [c for name, c in self.consts.items() if name.endswith(">::" + last) and name.startswith(head)]
         if len(cands) == 1:
             c = cands[0]
             if hasattr(c, "literal"):
